@@ -127,12 +127,32 @@ impl Rec {
             });
         }
     }
+    /// Name the site / input class that is about to be exercised. In an isolated worker the
+    /// checkpoint reaches the parent before the call, so that an abort (stack overflow, failed
+    /// allocation) can be attributed to it.
+    pub fn checkpoint(&mut self, site: &str) {
+        if WORKER_MODE.load(Ordering::Relaxed) {
+            use std::io::Write;
+            let idx = CUR_IDX.with(|c| c.get());
+            let out = std::io::stdout();
+            let mut l = out.lock();
+            let _ = writeln!(l, "C {} {}", idx, site.replace('\n', " "));
+            let _ = l.flush();
+        }
+    }
     pub fn check(&mut self, cond: bool, sig: &str, detail: impl FnOnce() -> String) -> bool {
         if !cond {
             self.soft_fail(sig, detail());
         }
         cond
     }
+}
+
+/// set in worker processes: checkpoints are flushed to the parent immediately
+pub static WORKER_MODE: AtomicBool = AtomicBool::new(false);
+
+thread_local! {
+    static CUR_IDX: std::cell::Cell<u64> = const { std::cell::Cell::new(0) };
 }
 
 thread_local! {
@@ -198,6 +218,13 @@ pub struct ReplayReq {
     pub tape: Vec<u8>,
 }
 
+#[derive(Clone, Debug)]
+pub struct WorkerReq {
+    pub group: String,
+    pub start: u64,
+    pub end: u64,
+}
+
 #[derive(Default)]
 struct GroupStats {
     evaluations: u64,
@@ -206,6 +233,7 @@ struct GroupStats {
     excluded_known: u64,
     exhaustive: bool,
     samples: Vec<String>,
+    started: Option<Instant>,
 }
 
 #[derive(Default)]
@@ -227,6 +255,7 @@ pub struct Ctx {
     pub verif_root: PathBuf,
     known: Vec<Known>,
     replay: Option<ReplayReq>,
+    pub worker: Option<WorkerReq>,
     acc: Mutex<Acc>,
     start: Instant,
     stop_all: AtomicBool,
@@ -276,6 +305,7 @@ impl Ctx {
             verif_root,
             known,
             replay,
+            worker: None,
             acc: Mutex::new(Acc::default()),
             start: Instant::now(),
             stop_all: AtomicBool::new(false),
@@ -342,7 +372,7 @@ impl Ctx {
     where
         F: Fn(&mut Tape, &mut Rec) -> CaseResult + Sync,
     {
-        if self.stop_all.load(Ordering::Relaxed) {
+        if self.stop_all.load(Ordering::Relaxed) || self.worker.is_some() {
             return;
         }
         if let Some(rp) = &self.replay {
@@ -391,6 +421,7 @@ impl Ctx {
             }
             let g = acc.groups.entry(name.to_string()).or_default();
             g.exhaustive = indexed;
+            g.started.get_or_insert_with(Instant::now);
         }
         let make_tape = |idx: u64| -> Vec<u8> {
             if indexed {
@@ -421,64 +452,8 @@ impl Ctx {
                     }
                 })
                 .collect();
-            let mut acc = self.acc.lock().unwrap();
-            for o in outs {
-                if let Some(hp) = o.harness_panic {
-                    if acc.harness_bugs.len() < 5 {
-                        acc.harness_bugs.push(format!("group {} idx {}: {}", name, o.idx, hp));
-                    }
-                }
-                let rec = o.rec;
-                for l in &rec.labels {
-                    *acc.classes.entry(l.clone()).or_insert(0) += 1;
-                }
-                let mut nt = 0;
-                if !rec.discard {
-                    if let Some(k) = rec.key {
-                        let mut h = std::collections::hash_map::DefaultHasher::new();
-                        name.hash(&mut h);
-                        k.hash(&mut h);
-                        if acc.keys.insert(h.finish()) {
-                            nt += 1;
-                        }
-                        for k in &rec.keys_extra {
-                            let mut h = std::collections::hash_map::DefaultHasher::new();
-                            name.hash(&mut h);
-                            k.hash(&mut h);
-                            if acc.keys.insert(h.finish()) {
-                                nt += 1;
-                            }
-                        }
-                    }
-                }
-                let mut known_n = 0;
-                for fl in &rec.fails {
-                    if let Some(k) = self.is_known(&fl.sig) {
-                        known_n += 1;
-                        let e = acc
-                            .known_hit
-                            .entry(fl.sig.clone())
-                            .or_insert((k.what_fails.clone(), 0));
-                        e.1 += 1;
-                    } else {
-                        first_fail
-                            .entry(fl.sig.clone())
-                            .or_insert((o.idx, fl.clone()));
-                    }
-                }
-                let g = acc.groups.get_mut(name).unwrap();
-                g.evaluations += 1 + rec.sub_evals;
-                g.nontrivial += nt;
-                if rec.discard {
-                    g.discarded += 1;
-                }
-                g.excluded_known += known_n;
-                if let Some(d) = rec.desc {
-                    if g.samples.len() < 4 {
-                        g.samples.push(d);
-                    }
-                }
-            }
+            self.absorb(name, outs, &mut first_fail);
+            let acc = self.acc.lock().unwrap();
             let bugs = !acc.harness_bugs.is_empty();
             drop(acc);
             done = end;
@@ -503,6 +478,299 @@ impl Ctx {
                 println!("  case: {}", d);
             }
             self.acc.lock().unwrap().violations.push((sig, path, detail));
+        }
+    }
+
+    /// Like `group`, but every case runs in a child process on a thread with a 2 MiB stack, so
+    /// that stack exhaustion, aborts and failed allocations are observed and attributed to the
+    /// in-flight case instead of taking the check down. No shrinking (the tape is reported as is).
+    pub fn group_isolated<F>(&self, name: &str, source: Source, f: F)
+    where
+        F: Fn(&mut Tape, &mut Rec) -> CaseResult + Sync + Send,
+    {
+        const STACK: usize = 2 << 20;
+        let (n, tape_len, indexed) = match source {
+            Source::Random { n, tape_len } => (n, tape_len, false),
+            Source::Indexed { count } => (count, 8, true),
+        };
+        let make_tape = |idx: u64| -> Vec<u8> {
+            if indexed {
+                idx.to_le_bytes().to_vec()
+            } else {
+                let mut rng = ChaCha8Rng::from_seed(mix(self.seed, self.prop, name, idx));
+                let mut t = vec![0u8; tape_len];
+                rng.fill_bytes(&mut t);
+                t
+            }
+        };
+        let run_on_small_stack = |tape: &[u8], want: bool| -> (Rec, Option<String>) {
+            std::thread::scope(|sc| {
+                std::thread::Builder::new()
+                    .stack_size(STACK)
+                    .spawn_scoped(sc, || self.run_one(&f, tape, want))
+                    .expect("spawn case thread")
+                    .join()
+                    .expect("case thread")
+            })
+        };
+        // ---- worker process ----
+        if let Some(w) = &self.worker {
+            if w.group != name {
+                return;
+            }
+            use std::io::Write;
+            WORKER_MODE.store(true, Ordering::Relaxed);
+            for idx in w.start..w.end.min(n) {
+                {
+                    let out = std::io::stdout();
+                    let mut l = out.lock();
+                    let _ = writeln!(l, "S {}", idx);
+                    let _ = l.flush();
+                }
+                let tape = make_tape(idx);
+                let want = idx < 2 || idx == n / 2 || idx == n - 1;
+                let (rec, hp) = std::thread::scope(|sc| {
+                    std::thread::Builder::new()
+                        .stack_size(STACK)
+                        .spawn_scoped(sc, || {
+                            CUR_IDX.with(|c| c.set(idx));
+                            self.run_one(&f, &tape, want)
+                        })
+                        .expect("spawn case thread")
+                        .join()
+                        .expect("case thread")
+                });
+                let v = json!({
+                    "labels": rec.labels, "key": rec.key, "keys_extra": rec.keys_extra, "desc": rec.desc,
+                    "discard": rec.discard, "sub_evals": rec.sub_evals, "harness_panic": hp,
+                    "fails": rec.fails.iter().map(|x| json!({"sig": x.sig, "detail": x.detail})).collect::<Vec<_>>(),
+                });
+                let out = std::io::stdout();
+                let mut l = out.lock();
+                let _ = writeln!(l, "E {} {}", idx, v);
+                let _ = l.flush();
+            }
+            std::process::exit(0);
+        }
+        if self.stop_all.load(Ordering::Relaxed) {
+            return;
+        }
+        // ---- replay: in-process, small stack ----
+        if let Some(rp) = &self.replay {
+            if rp.group != name {
+                return;
+            }
+            println!("REPLAY group={} tape={} (isolated group: running on a 2 MiB stack; an abort here IS the failure)", name, hex::encode(&rp.tape));
+            let (rec, hp) = run_on_small_stack(&rp.tape, true);
+            if let Some(d) = &rec.desc {
+                println!("  case: {}", d);
+            }
+            let mut acc = self.acc.lock().unwrap();
+            if let Some(hp) = hp {
+                acc.harness_bugs.push(hp);
+            }
+            acc.groups.entry(name.to_string()).or_default().evaluations += 1;
+            if rec.fails.is_empty() {
+                println!("  outcome: pass");
+            }
+            for fl in &rec.fails {
+                println!("  outcome: FAIL {} — {}", fl.sig, fl.detail);
+                if let Some(k) = self.is_known(&fl.sig) {
+                    acc.known_hit.entry(fl.sig.clone()).or_insert((k.what_fails.clone(), 0)).1 += 1;
+                } else {
+                    acc.violations.push((fl.sig.clone(), String::from("<replayed>"), fl.detail.clone()));
+                }
+            }
+            return;
+        }
+        // ---- parent ----
+        {
+            let mut acc = self.acc.lock().unwrap();
+            if !acc.order.iter().any(|x| x == name) {
+                acc.order.push(name.to_string());
+            }
+            let g = acc.groups.entry(name.to_string()).or_default();
+            g.exhaustive = indexed;
+            g.started.get_or_insert_with(Instant::now);
+        }
+        let exe = std::env::current_exe().expect("current_exe");
+        let workers = (rayon::current_num_threads() as u64).min(n.div_ceil(8)).max(1);
+        let step = n.div_ceil(workers * 3).max(1);
+        let queue: Mutex<std::collections::VecDeque<(u64, u64)>> = Mutex::new((0..n).step_by(step as usize).map(|s| (s, (s + step).min(n))).collect());
+        let results: Mutex<Vec<CaseOut>> = Mutex::new(Vec::new());
+        let watchdog = std::time::Duration::from_secs(std::env::var("VERIF_CASE_TIMEOUT_S").ok().and_then(|s| s.parse().ok()).unwrap_or(120));
+        std::thread::scope(|sc| {
+            for _ in 0..workers {
+                sc.spawn(|| loop {
+                    let Some((start, end)) = queue.lock().unwrap().pop_front() else { break };
+                    let mut child = std::process::Command::new(&exe)
+                        .args([self.prop, "worker", self.tier.name(), name, &start.to_string(), &end.to_string()])
+                        .env("VERIF_SEED", self.seed.to_string())
+                        .env("VERIF_THREADS", "1")
+                        .stdout(std::process::Stdio::piped())
+                        .stderr(std::process::Stdio::piped())
+                        .spawn()
+                        .expect("spawn worker");
+                    let stdout = child.stdout.take().unwrap();
+                    let mut stderr = child.stderr.take().unwrap();
+                    let (tx, rx) = std::sync::mpsc::channel::<String>();
+                    let rd = std::thread::spawn(move || {
+                        use std::io::BufRead;
+                        for line in std::io::BufReader::new(stdout).lines().map_while(|l| l.ok()) {
+                            if tx.send(line).is_err() {
+                                break;
+                            }
+                        }
+                    });
+                    let errt = std::thread::spawn(move || {
+                        use std::io::Read;
+                        let mut v = Vec::new();
+                        let _ = stderr.read_to_end(&mut v);
+                        let s = String::from_utf8_lossy(&v).to_string();
+                        s.chars().rev().take(600).collect::<String>().chars().rev().collect::<String>()
+                    });
+                    let mut inflight: Option<u64> = None;
+                    let mut checkpoint = String::new();
+                    let mut next = start;
+                    let mut timed_out = false;
+                    loop {
+                        match rx.recv_timeout(watchdog) {
+                            Ok(line) => {
+                                if let Some(r) = line.strip_prefix("S ") {
+                                    inflight = r.trim().parse().ok();
+                                    checkpoint.clear();
+                                } else if let Some(r) = line.strip_prefix("C ") {
+                                    if let Some((_, site)) = r.split_once(' ') {
+                                        checkpoint = site.to_string();
+                                    }
+                                } else if let Some(r) = line.strip_prefix("E ") {
+                                    if let Some((i, js)) = r.split_once(' ') {
+                                        if let (Ok(idx), Ok(v)) = (i.parse::<u64>(), serde_json::from_str::<Value>(js)) {
+                                            let mut rec = Rec::new(false, false);
+                                            rec.labels = v["labels"].as_array().map(|a| a.iter().filter_map(|x| x.as_str().map(String::from)).collect()).unwrap_or_default();
+                                            rec.key = v["key"].as_u64();
+                                            rec.keys_extra = v["keys_extra"].as_array().map(|a| a.iter().filter_map(|x| x.as_u64()).collect()).unwrap_or_default();
+                                            rec.desc = v["desc"].as_str().map(String::from);
+                                            rec.discard = v["discard"].as_bool().unwrap_or(false);
+                                            rec.sub_evals = v["sub_evals"].as_u64().unwrap_or(0);
+                                            rec.fails = v["fails"].as_array().map(|a| a.iter().map(|x| Fail { sig: x["sig"].as_str().unwrap_or("").to_string(), detail: x["detail"].as_str().unwrap_or("").to_string() }).collect()).unwrap_or_default();
+                                            results.lock().unwrap().push(CaseOut { idx, rec, harness_panic: v["harness_panic"].as_str().map(String::from) });
+                                            inflight = None;
+                                            next = idx + 1;
+                                        }
+                                    }
+                                }
+                            }
+                            Err(std::sync::mpsc::RecvTimeoutError::Timeout) => {
+                                timed_out = true;
+                                let _ = child.kill();
+                                break;
+                            }
+                            Err(std::sync::mpsc::RecvTimeoutError::Disconnected) => break,
+                        }
+                    }
+                    let status = child.wait().ok();
+                    let _ = rd.join();
+                    let err_tail = errt.join().unwrap_or_default();
+                    if let Some(idx) = inflight {
+                        // the child died (or hung) inside case idx
+                        let mut rec = Rec::new(true, false);
+                        rec.key = Some(idx);
+                        if timed_out {
+                            results.lock().unwrap().push(CaseOut { idx, rec, harness_panic: Some(format!("watchdog: no progress for {} s in case {} (site {:?}) - inconclusive", watchdog.as_secs(), idx, checkpoint)) });
+                        } else {
+                            let kind = if err_tail.contains("overflowed its stack") {
+                                "stack-overflow".to_string()
+                            } else if err_tail.contains("memory allocation of") {
+                                "allocation-failure".to_string()
+                            } else {
+                                use std::os::unix::process::ExitStatusExt;
+                                format!("terminated-by-signal-{}", status.and_then(|s| s.signal()).unwrap_or(0))
+                            };
+                            rec.desc = Some(format!("case {} aborted the worker process; tape {}", idx, hex::encode(make_tape(idx))));
+                            rec.fails.push(Fail { sig: format!("{}:abort:{}@{}", self.prop, kind, if checkpoint.is_empty() { "?" } else { &checkpoint }), detail: format!("worker process died in case {} ({}); stderr tail: {}", idx, kind, err_tail.replace('\n', " | ")) });
+                            results.lock().unwrap().push(CaseOut { idx, rec, harness_panic: None });
+                        }
+                        next = idx + 1;
+                    }
+                    if next < end {
+                        queue.lock().unwrap().push_front((next, end));
+                    }
+                });
+            }
+        });
+        let mut outs = results.into_inner().unwrap();
+        outs.sort_by_key(|o| o.idx);
+        let mut first_fail: BTreeMap<String, (u64, Fail)> = BTreeMap::new();
+        self.absorb(name, outs, &mut first_fail);
+        for (sig, (idx, fl)) in first_fail.into_iter().take(5) {
+            let tape = make_tape(idx);
+            let path = self.write_replay(name, &sig, idx, &tape, &fl.detail, None);
+            println!("VIOLATION property={} replay={}", self.prop, path);
+            println!("  signature: {}", sig);
+            println!("  detail: {}", fl.detail);
+            self.acc.lock().unwrap().violations.push((sig, path, fl.detail));
+        }
+    }
+
+    fn absorb(&self, name: &str, outs: Vec<CaseOut>, first_fail: &mut BTreeMap<String, (u64, Fail)>) {
+        let mut acc = self.acc.lock().unwrap();
+        for o in outs {
+            if let Some(hp) = o.harness_panic {
+                if acc.harness_bugs.len() < 5 {
+                    acc.harness_bugs.push(format!("group {} idx {}: {}", name, o.idx, hp));
+                }
+            }
+            let rec = o.rec;
+            for l in &rec.labels {
+                *acc.classes.entry(l.clone()).or_insert(0) += 1;
+            }
+            let mut nt = 0;
+            if !rec.discard {
+                if let Some(k) = rec.key {
+                    let mut h = std::collections::hash_map::DefaultHasher::new();
+                    name.hash(&mut h);
+                    k.hash(&mut h);
+                    if acc.keys.insert(h.finish()) {
+                        nt += 1;
+                    }
+                    for k in &rec.keys_extra {
+                        let mut h = std::collections::hash_map::DefaultHasher::new();
+                        name.hash(&mut h);
+                        k.hash(&mut h);
+                        if acc.keys.insert(h.finish()) {
+                            nt += 1;
+                        }
+                    }
+                }
+            }
+            let mut known_n = 0;
+            for fl in &rec.fails {
+                if let Some(k) = self.is_known(&fl.sig) {
+                    known_n += 1;
+                    let e = acc
+                        .known_hit
+                        .entry(fl.sig.clone())
+                        .or_insert((k.what_fails.clone(), 0));
+                    e.1 += 1;
+                } else {
+                    first_fail
+                        .entry(fl.sig.clone())
+                        .or_insert((o.idx, fl.clone()));
+                }
+            }
+            let g = acc.groups.get_mut(name).unwrap();
+            g.evaluations += 1 + rec.sub_evals;
+            g.nontrivial += nt;
+            if rec.discard {
+                g.discarded += 1;
+            }
+            g.excluded_known += known_n;
+            if let Some(d) = rec.desc {
+                if g.samples.len() < 4 {
+                    g.samples.push(d);
+                }
+            }
         }
     }
 
@@ -656,8 +924,12 @@ impl Ctx {
         let mut groups = serde_json::Map::new();
         let mut samples: Vec<Value> = Vec::new();
         let mut all_exh = !acc.groups.is_empty();
-        for name in &acc.order {
+        let now = Instant::now();
+        for (gi, name) in acc.order.iter().enumerate() {
             let g = &acc.groups[name];
+            // groups run one after the other: a group lasts until the next one starts
+            let until = acc.order.get(gi + 1).and_then(|n| acc.groups[n].started).unwrap_or(now);
+            let group_wall = g.started.map(|s| until.saturating_duration_since(s).as_secs_f64()).unwrap_or(0.0);
             evaluations += g.evaluations;
             discarded += g.discarded;
             excluded += g.excluded_known;
@@ -666,7 +938,8 @@ impl Ctx {
                 name.clone(),
                 json!({"evaluations": g.evaluations, "distinct_nontrivial": g.nontrivial,
                        "discarded": g.discarded, "excluded_known": g.excluded_known,
-                       "enumerated_exhaustively": g.exhaustive}),
+                       "enumerated_exhaustively": g.exhaustive,
+                       "wall_s": (group_wall * 10.0).round() / 10.0}),
             );
             for s in g.samples.iter().take(3) {
                 samples.push(json!({"group": name, "case": s}));
